@@ -27,6 +27,7 @@ Stmt   =
   ["block", name, [Stmt]]                <%block name="..">..</%block>
   ["nscall", ns, member, {k: literal}, [Stmt]]   <%ns:member k="literal">..</%ns:member>
   ["callerbody"]                         ${caller.body()}
+  ["assign", name, literal]              <% name = literal %>      (template body only)
   ["kwitems", name]                      ${sorted(name.items())}
   ["ctxget", name]                       ${context.get('name', '-')}
 `args` / `kwargs` are Python argument-list source made of literals only.
@@ -120,6 +121,8 @@ def p_stmt(s):
         return "<%%%s:%s%s>%s</%%%s:%s>" % (s[1], s[2], attrs, p_stmts(s[4]), s[1], s[2])
     if k == "callerbody":
         return "${caller.body()}"
+    if k == "assign":
+        return "<%% %s = %s %%>" % (s[1], s[2])
     if k == "kwitems":
         return "${sorted(%s.items())}" % s[1]
     if k == "ctxget":
